@@ -872,6 +872,25 @@ func (fr *frame) checkPost(ret *ssa.Return, vals []Val, st *State, reach string)
 		g := fr.evalClause(cl, nil, st, extra)
 		ex.oblige(cl.Label, "ensures", cl.Props, imp(reach, g), cl.Pos, cl.Text)
 	}
+	for _, ie := range fr.c.IfaceEnsures {
+		// behavioural subtyping: the interface-protocol postcondition, read with the interface method's parameter names
+		ext := map[string]Val{}
+		for k, v := range extra {
+			ext[k] = v
+		}
+		for k, n := range ie.Params {
+			if k < len(fr.args) && n != "" && n != "_" {
+				ext[n] = fr.args[k]
+			}
+		}
+		saved := fr.c
+		tmp := *fr.c
+		tmp.Pkg = ie.From.Pkg
+		fr.c = &tmp
+		g := fr.evalClause(ie.Cl, nil, st, ext)
+		fr.c = saved
+		ex.oblige("iface."+ie.From.Name+"."+ie.Cl.Label, "ensures", ie.Cl.Props, imp(reach, g), ie.Cl.Pos, "(inherited from iface "+ie.From.Name+") "+ie.Cl.Text)
+	}
 	for _, cl := range fr.c.Lemmas {
 		// a lemma is a closed formula over its own quantified variables: proved without any program context
 		g := fr.evalClause(cl, nil, st, extra)
